@@ -574,6 +574,109 @@ func init() {
 	})
 }
 
+// ---------------- files (package os) ----------------
+// Ghost model of the file system (assumption A15): one content per path. os.WriteFile replaces the content;
+// os.ReadFile returns it; a file opened with os.OpenFile is written at a running offset that starts at 0 (or at the end
+// with O_APPEND); O_TRUNC empties the file at open time, without it the bytes beyond what is written STAY.
+// Every call may fail with an arbitrary error, in which case nothing changes. Permissions, directories, links,
+// concurrent writers and short writes are not modelled.
+type fileRef struct {
+	path   *Term
+	trunc  bool
+	apnd   bool
+	known  bool  // flags were a compile-time constant
+	offset *Term // bytes written so far through this handle
+}
+
+var fileObjs = map[*Object]*fileRef{}
+
+func (ex *Exec) fsHas(st *State) *Term { return ex.ghostArr(st, "fs:has", ArrSort(SB, SBool), "fs_has") }
+func (ex *Exec) fsVal(st *State) *Term { return ex.ghostArr(st, "fs:val", ArrSort(SB, SB), "fs_val") }
+
+func init() {
+	reg("os.WriteFile", func(ex *Exec, st *State, fr *Frame, ins ssa.Instruction, args []Value) (Value, bool) {
+		name, data := strArg(ex, st, args[0]), strArg(ex, st, args[1])
+		has, val := ex.fsHas(st), ex.fsVal(st)
+		e := ex.freshErr("writefile_err", false)
+		fail := Neq(e.ID, IntC(0))
+		st.Ghost["fs:has"] = Ite(fail, has, Store(has, name, TTrue))
+		st.Ghost["fs:val"] = Ite(fail, val, Store(val, name, data))
+		return e, true
+	})
+	reg("os.ReadFile", func(ex *Exec, st *State, fr *Frame, ins ssa.Instruction, args []Value) (Value, bool) {
+		name := strArg(ex, st, args[0])
+		e := ex.freshErr("readfile_err", false)
+		// a missing file cannot be read
+		ex.G.facts[e.ID.Name] = append(ex.G.facts[e.ID.Name], Implies(Eq(e.ID, IntC(0)), Select(ex.fsHas(st), name)))
+		sl := ex.newByteSlice(st, Select(ex.fsVal(st), name), "filecontent")
+		return &TupleV{E: []Value{sl, e}}, true
+	})
+	reg("os.OpenFile", func(ex *Exec, st *State, fr *Frame, ins ssa.Instruction, args []Value) (Value, bool) {
+		c, ok := ins.(*ssa.Call)
+		if !ok {
+			return nil, false
+		}
+		name := strArg(ex, st, args[0])
+		ref := &fileRef{path: name, offset: IntC(0)}
+		if fl, ok := args[1].(*Term); ok && fl.IsConstInt() && fl.I.IsInt64() {
+			f := fl.I.Int64()
+			ref.known, ref.trunc, ref.apnd = true, f&0x200 != 0, f&0x400 != 0
+		}
+		o := ex.G.NewObject(c.Type().(*types.Tuple).At(0).Type().Underlying().(*types.Pointer).Elem(), "file")
+		fileObjs[o] = ref
+		e := ex.freshErr("openfile_err", false)
+		okT := Eq(e.ID, IntC(0))
+		has, val := ex.fsHas(st), ex.fsVal(st)
+		empty := ex.G.StrConst("")
+		if ref.known && ref.trunc {
+			st.Ghost["fs:has"] = Ite(okT, Store(has, name, TTrue), has)
+			st.Ghost["fs:val"] = Ite(okT, Store(val, name, empty), val)
+		} else if ref.known {
+			// created empty when it did not exist (O_CREATE) - or the open failed
+			st.Ghost["fs:val"] = Ite(And(okT, Not(Select(has, name))), Store(val, name, empty), val)
+			st.Ghost["fs:has"] = Ite(okT, Store(has, name, TTrue), has)
+		} else {
+			st.Ghost["fs:has"] = Var(ex.G.name("fs_has_unknownflags"), ArrSort(SB, SBool))
+			st.Ghost["fs:val"] = Var(ex.G.name("fs_val_unknownflags"), ArrSort(SB, SB))
+		}
+		return &TupleV{E: []Value{&PtrV{Nil: Not(okT), Obj: o}, e}}, true
+	})
+	reg("(*os.File).Write", func(ex *Exec, st *State, fr *Frame, ins ssa.Instruction, args []Value) (Value, bool) {
+		ref := fileObjs[objOf(args[0])]
+		if ref == nil {
+			return nil, false
+		}
+		data := strArg(ex, st, args[1])
+		lb := ex.G.BLen(data)
+		e := ex.freshErr("filewrite_err", false)
+		okT := Eq(e.ID, IntC(0))
+		val := ex.fsVal(st)
+		old := Select(val, ref.path)
+		lo := ex.G.BLen(old)
+		var nv *Term
+		if !ref.known {
+			nv = ex.G.FreshBytes("written_unknownflags", -1)
+		} else if ref.apnd {
+			nv = ex.G.BCat(old, data)
+		} else {
+			end := Add(ref.offset, lb)
+			rest := Ite(Gt(lo, end), Sub(lo, end), IntC(0))
+			nv = ex.G.BCat(ex.G.BCat(ex.G.BSub(old, IntC(0), ref.offset), data), ex.G.BSub(old, end, rest))
+		}
+		st.Ghost["fs:val"] = Ite(okT, Store(val, ref.path, nv), val)
+		ref.offset = Ite(okT, Add(ref.offset, lb), ref.offset)
+		return &TupleV{E: []Value{Ite(okT, lb, IntC(0)), e}}, true
+	})
+	for _, n := range []string{"(*os.File).Sync"} {
+		reg(n, func(ex *Exec, st *State, fr *Frame, ins ssa.Instruction, args []Value) (Value, bool) {
+			if fileObjs[objOf(args[0])] == nil {
+				return nil, false
+			}
+			return ex.freshErr("filesync_err", false), true
+		})
+	}
+}
+
 type itemRef struct {
 	db  *Object
 	key *Term
